@@ -1,0 +1,14 @@
+//! Verification hook, compiled only with the cargo feature `verif_hooks`.
+//!
+//! When the environment variable `BITBYBIT_VERIF_DUMP_DIR` is set, every successful macro
+//! expansion is written to `<dir>/<kind>.<TypeName>.rs` as the exact token stream that is
+//! returned to the compiler. Nothing else is changed.
+
+use proc_macro2::TokenStream;
+
+pub(crate) fn dump(kind: &str, name: &str, expanded: &TokenStream) {
+    if let Ok(dir) = std::env::var("BITBYBIT_VERIF_DUMP_DIR") {
+        let path = std::path::Path::new(&dir).join(format!("{}.{}.rs", kind, name));
+        let _ = std::fs::write(path, expanded.to_string());
+    }
+}
